@@ -19,6 +19,7 @@ import (
 	"io"
 	"io/fs"
 	"mime"
+	"mime/multipart"
 	"net/mail"
 	"os"
 	"os/exec"
@@ -3108,9 +3109,23 @@ func (m *Msg) signMessage() error {
 	}()
 
 	// We render an unsigned version of the mail into a buffer so we can use it for
-	// the S/MIME signature
+	// the S/MIME signature. In the signed mail the body is the first part of the
+	// multipart/signed container, so we render it as first part of a multipart here as well.
+	// Rendered as top-level body instead, single part or single file messages would be written
+	// with differently formatted (or different) content headers than the ones that finally are
+	// emitted, and the signature would not match.
 	buf := bytes.NewBuffer(nil)
 	mw := &msgWriter{writer: buf, charset: m.charset, encoder: m.encoder}
+	boundary, err := randomBoundary()
+	if err != nil {
+		return fmt.Errorf("failed to generate boundary for the signing container: %w", err)
+	}
+	container := multipart.NewWriter(mw)
+	if err = container.SetBoundary(boundary); err != nil {
+		return fmt.Errorf("failed to set boundary for the signing container: %w", err)
+	}
+	mw.multiPartWriter[0] = container
+	mw.depth = 1
 	mw.writeMsg(m)
 
 	// Since we only want to sign the message body, we need to find the position within
@@ -3126,8 +3141,11 @@ func (m *Msg) signMessage() error {
 		linecount++
 	}
 
+	// The body starts behind the delimiter line of the surrounding container
+	body := bytes.TrimPrefix(buf.Bytes()[pos:], []byte("--"+container.Boundary()+SingleNewLine))
+
 	// Sign the message and attach a new smime signature part to the mail
-	signedMessage, err := m.sMIME.signMessage(buf.Bytes()[pos:])
+	signedMessage, err := m.sMIME.signMessage(body)
 	if err != nil {
 		return fmt.Errorf("failed to sign message: %w", err)
 	}
